@@ -25,6 +25,7 @@ Flt(k, f) == [kind |-> k, file |-> f, at |-> "use"]
 LoadV(f, how, given, vals) == [op |-> "load", file |-> f, how |-> how, given |-> given, vals |-> vals]
 Load(f, how, given) == LoadV(f, how, given, "std")
 RepairOp == [op |-> "repair", file |-> "-", how |-> "-", given |-> <<>>, vals |-> "-"]
+DeclareOp(lg, names) == [op |-> "declare", file |-> lg, how |-> "-", given |-> names, vals |-> "-"]
 \* one language, with or without a global repository
 OneLang(F) == [f \in F |-> "A"]
 RepoOf(grepo) == [A |-> IF grepo THEN "r1" ELSE "-", B |-> "-"]
@@ -54,7 +55,7 @@ MkX(files, lang, imports, glob, v, kind, repo, declared, flt, session, pad, ind)
                   \cup Range(bi)
       refs == [f \in F |-> SelectSeq(NameOrd, LAMBDA n : n \in vis(f))]
   IN [files |-> files, lang |-> lang, imports |-> imports, glob |-> glob, defs |-> defs, refs |-> refs,
-      lrefs |-> [f \in F |-> <<>>], pad |-> pad, ind |-> ind, kind |-> kind, repo |-> repo, builtin |-> bi,
+      lrefs |-> [f \in F |-> <<>>], pad |-> pad, ind |-> ind, deco |-> [f \in F |-> 0], kind |-> kind, repo |-> repo, builtin |-> bi,
       declared |-> declared, fault |-> flt, session |-> session]
 
 Mk(files, imports, glob, v, kind, grepo, declared, flt, session, pad, ind) ==
@@ -122,8 +123,19 @@ C17Str(n) ==
               gl \in Globs(files, k) }
           : k \in MCKinds, gr \in MCGrepo }
 
+\* a load that fails (in any phase) between successful loads: what the global repository
+\* held before is still handed out afterwards
+C17Fail ==
+  LET files == FilesN(3)  F == Range(files) IN
+  UNION { { Mk(files, g, IF GlobKind(k) THEN Tail(files) ELSE files, 1, k, TRUE, <<>>, Flt(ph, "a"),
+               <<Load("c", "file", <<>>), Load("a", "file", <<>>), Load("c", "file", <<>>), Load("b", "file", <<>>)>>,
+               Const(F, 0), Const(F, 0)) :
+              ph \in {"syntax", "unknown", "objproc", "modelproc"},
+              g \in (IF GlobKind(k) THEN {Const(F, <<>>)} ELSE Shapes3) }
+          : k \in MCKinds }
+
 FamC17(dummy) ==
-  C17Str(2) \cup C17Str(3) \cup
+  C17Str(2) \cup C17Str(3) \cup C17Fail \cup
   (IF Quick THEN C17N(1, TRUE, {0, 1, 2}) \cup C17N(2, TRUE, {0, 1, 2}) \cup C17N(3, FALSE, {1})
    ELSE C17N(1, TRUE, {0, 1, 2}) \cup C17N(2, TRUE, {0, 1, 2}) \cup C17N(3, TRUE, {0, 1, 2}))
   \cup C17ML(2) \cup C17ML(3)
@@ -144,15 +156,20 @@ C18One(n, k, gr, g0, gl) ==
                   ELSE {"-"}
       \* the main model from a file, or from a string without file name (GlobalRepo
       \* providers accept that with imports, ImportURI providers only without)
+      \* or the file is loaded into a repository owned by the application
       hows == {"file"} \cup (IF GlobKind(k) \/ g0["a"] = <<>> THEN {"str"} ELSE {})
+                \cup (IF n < 3 \/ ~Quick THEN {"app"} ELSE {})
+      preh(hw) == IF hw = "app" THEN "app" ELSE "file"
+      prs(ff, hw) == IF hw = "app" /\ ~gr THEN pres(ff) \cup {p \in R \ {"a"} : ff \notin Reach(p, g, gl, k)}
+                     ELSE pres(ff)
   IN UNION { { Mk(filesz, g, gl, 1, k, gr, <<>>, Flt(ph, ff),
-                  (IF p = "-" THEN <<>> ELSE <<Load(p, "file", <<>>)>>)
+                  (IF p = "-" THEN <<>> ELSE <<Load(p, preh(hw), <<>>)>>)
                     \o <<Load("a", hw, <<>>), RepairOp, Load("a", hw, <<>>)>>
                     \o (IF gr THEN <<Load("a", "file", <<>>)>> ELSE <<>>)
-                    \o (IF p = "-" THEN <<>> ELSE <<Load(p, "file", <<>>)>>),
+                    \o (IF p = "-" THEN <<>> ELSE <<Load(p, preh(hw), <<>>)>>),
                   Const(Fz, 0), Const(Fz, 0)) :
-                 ph \in {"syntax", "unknown", "objproc", "modelproc"}, p \in pres(ff), hw \in hows }
-             : ff \in R }
+                 ph \in {"syntax", "unknown", "objproc", "modelproc"}, p \in prs(ff, hw) }
+               : ff \in R, hw \in hows }
 
 C18N(n) ==
   UNION { UNION { C18One(n, k, gr, g0, gl) : g0 \in C18Graphs(n, k), gl \in Globs(FilesN(n), k) }
@@ -193,7 +210,7 @@ C27One(k, gr, ng) ==
        <<Load("a", how, gv)>> \o (IF gr THEN <<Load("a", "file", <<>>)>> ELSE <<>>),
        Const(F, 0), Const(F, 0)) :
       d \in Declareds, gv \in Givens,
-      how \in {"file", "strfile"} \cup (IF g["a"] = <<>> /\ ~GlobKind(k) THEN {"str"} ELSE {}) }
+      how \in {"file", "strfile"} \cup (IF g["a"] = <<>> THEN {"str"} ELSE {}) }
 
 \* parameter values: None and the other falsy values are values like any other
 C27Vals(k, gr, ng) ==
@@ -216,14 +233,32 @@ C27ML(k, ngl) ==
       dA \in {<<"p">>, <<"p", "q">>}, dB \in {<<>>, <<"p">>},
       gv \in {<<"p">>, <<"q">>, <<"p", "project_root">>, <<"zzz">>}, vl \in {"std", "none"} }
 
+\* the value of the built-in project_root is user data too: not normalised on its way to the models
+C27Root(k, gr, ng) ==
+  LET n == ng[1]  g == ng[2]  files == FilesN(n)  F == Range(files) IN
+  { Mk(files, g, files, 1, k, gr, <<"p">>, NoFault, <<LoadV("a", how, gv, vl)>>, Const(F, 0), Const(F, 0)) :
+      gv \in {<<"project_root">>, <<"p", "project_root">>}, vl \in {"trail", "dotdot", "rel"},
+      how \in {"file"} \cup (IF g["a"] = <<>> THEN {"str"} ELSE {}) }
+
+\* parameters declared between two loads of one metamodel are accepted from then on
+C27Decl(k, gr, ng) ==
+  LET n == ng[1]  g == ng[2]  files == FilesN(n)  F == Range(files) IN
+  { Mk(files, g, files, 1, k, gr, d, NoFault,
+       <<Load("a", how, gv), DeclareOp("A", <<"q">>), Load("a", how, <<"q">>), Load("a", how, <<"q", "zzz">>)>>,
+       Const(F, 0), Const(F, 0)) :
+      d \in {<<>>, <<"p">>}, gv \in {<<>>, <<"p">>, <<"q">>}, how \in {"file"} \cup (IF g["a"] = <<>> THEN {"str"} ELSE {}) }
+
 FamC27(dummy) ==
-  UNION { UNION { C27One(k, gr, ng) \cup C27Vals(k, gr, ng) : ng \in C27Graphs(k) } : k \in MCKinds, gr \in MCGrepo }
+  UNION { UNION { C27One(k, gr, ng) \cup C27Vals(k, gr, ng) \cup C27Root(k, gr, ng) \cup C27Decl(k, gr, ng)
+                  : ng \in C27Graphs(k) } : k \in MCKinds, gr \in MCGrepo }
   \cup UNION { UNION { C27ML(k, ngl) : ngl \in C27MLGraphs(k) } : k \in MCKinds }
 
 ----------------------------------------------------------------------------
 \* C28: one offending text per scenario: kind x file of a chain a -> b -> c x layout
-Layouts == IF Quick THEN { <<0, 0, 1, 2>>, <<2, 1, 0, 0>>, <<1, 3, 2, 1>> }
-           ELSE { <<pa, ia, po, io>> : pa \in {0, 2}, ia \in {0, 1, 3}, po \in {0, 1, 2}, io \in {0, 2} }
+\* <<pad a, ind a, pad others, ind others, deco a, deco others>>
+Layouts == IF Quick THEN { <<0, 0, 1, 2, 0, 0>>, <<2, 1, 0, 0, 7, 0>>, <<1, 3, 2, 1, 6, 9>> }
+           ELSE { <<pa, ia, po, io, da, do>> : pa \in {0, 2}, ia \in {0, 1, 3}, po \in {0, 1, 2}, io \in {0, 2},
+                                                da \in {0, 7}, do \in {0, 6} }
 
 ChainImports(n, kind) ==
   IF GlobKind(kind) THEN Const(Range(FilesN(n)), <<>>)
@@ -259,6 +294,7 @@ C28Sc(n, k, gr, flt, ly, how, lv, bi, extra) ==
       lrefs |-> IF lv = 1 THEN rs ELSE Const(F, <<>>),
       pad |-> [f \in F |-> IF f = "a" THEN ly[1] ELSE ly[3]],
       ind |-> [f \in F |-> IF f = "a" THEN ly[2] ELSE ly[4]],
+      deco |-> [f \in F |-> IF f = "a" THEN ly[5] ELSE ly[6]],
       kind |-> k, repo |-> RepoOf(gr), builtin |-> bi, declared |-> DeclA(<<>>),
       fault |-> [kind |-> flt.kind, file |-> flt.file, at |-> IF lv = 1 THEN "list" ELSE "use"],
       session |-> <<Load("a", how, <<>>)>>]
